@@ -21,16 +21,20 @@ LEVEL = "exploration"
 ENGINE = "models"
 TECHNIQUE = ("systematic schedule enumeration (stateless model checking over baton-passing virtual threads) plus "
              "property-based testing (Hypothesis) with schedule tapes")
-RULE = ("Part 'schedules' (exhaustive): every clock-reading sequence over the alphabet {0,1,2,3 us, 1 s + 1 us} (one "
-        "reading per call) x every interleaving of the thread configurations [1],[2],[1,1],[2,1],[1,1,1] (quick) plus "
-        "[2,2],[2,1,1] (thorough) (calls per virtual thread) at the pre-emption points {before lock acquire, before the clock read, "
-        "before each read/write of the shared attribute `last`, inside log.warning, after lock release}, found by "
-        "depth-first enumeration of the scheduler's choice tree; two generator configurations (default; warn threshold "
-        "and interval 0 so that the warning path is always taken).  Part 'next' (exhaustive): _next_timestamp(now,last) "
-        "for now,last in 0..8 and around 2^53.  Part 'random': Hypothesis draws <=4 threads x <=4 calls, clock "
-        "sequences by class (advancing, standing still, stepping/jumping backwards, realistic epoch values, values "
-        "around 2^53 us) and a schedule tape.  Non-trivial: the clock stands still or goes backwards within the "
-        "consumed readings and (for more than one thread) two calls of different threads overlap in time.")
+RULE = ("Part 'schedules' (exhaustive): for each thread configuration (calls per virtual thread) [1],[2],[1,1],[2,1],[1,1,1],[2,2] "
+        "every clock-reading sequence (one reading per call) over the alphabet {0,1,2,3 us, 1 s + 1 us} -- for [1,1,1] and [2,2] over "
+        "{0,1 us, 1 s + 1 us} in quick and the full alphabet in thorough; thorough also [2,1,1] (full alphabet), [1,1,1,1] "
+        "({0,1,1 s + 1 us}) and [2,2,1] ({0,1 us}); x two generator configurations (default; warning threshold "
+        "and interval 0 so that the warning path is always taken) x every interleaving at the pre-emption points {before "
+        "lock acquire, before the clock read, before each read/write of the shared attribute `last`, inside log.warning, "
+        "before and after lock release}, enumerated depth-first over the scheduler's choice tree with sleep-set partial-"
+        "order reduction: one representative of every class of interleavings that differ in the order of two dependent "
+        "steps (same shared object -- lock, clock, `last` -- or an invocation against a return) is executed.  Part 'next' "
+        "(exhaustive): _next_timestamp(now,last) for now,last in 0..8 and around 2^53 / 2^63.  Part 'random': Hypothesis "
+        "draws <=4 threads x <=4 calls, clock sequences by class (advancing, standing still, stepping/jumping backwards, "
+        "realistic epoch values, values around 2^53 us, arbitrary floats) , a subset of the point kinds and a schedule "
+        "tape.  Non-trivial: the clock stands still or goes backwards within the consumed readings and (for more than one "
+        "thread) two calls of different threads overlap in time.")
 ASSUMPTIONS = ["pre-emption is modelled at lock operations, clock reads, accesses to the shared attribute `last` (a "
                "property on a harness subclass of the generator) and the logging call; other bytecode boundaries are "
                "not pre-emption points",
@@ -38,8 +42,11 @@ ASSUMPTIONS = ["pre-emption is modelled at lock operations, clock reads, accesse
                "of a call in microseconds is floor(reading * 10^6) computed in exact rational arithmetic",
                "the oracle does not mention the lock: distinctness, real-time order (A returned before B was invoked => "
                "v(A) < v(B)) and v >= clock reading of that call"]
-LEVEL_TEXT = ("all interleavings at the stated pre-emption points for <= 4 calls (5 in thorough) on <= 3 threads and all "
-              "reading sequences over a 5-letter alphabet were evaluated; larger histories are sampled")
+LEVEL_TEXT = ("all interleavings (up to commutation of independent steps) at the stated pre-emption points for the listed "
+              "thread configurations and reading alphabets were evaluated; larger histories are sampled")
+
+# the quick tier is a few CPU-seconds; forking a pool costs more than it saves
+SERIAL = os.environ.get("VERIF_TIER") == "quick"
 
 JUMP = 1000001
 ALPHABET = (0, 1, 2, 3, JUMP)          # microseconds
@@ -316,21 +323,35 @@ class _VLog(object):
         return True
 
 
-def _probe_class(world):
-    from cassandra.timestamps import MonotonicTimestampGenerator
+_CUR = [None]        # the world of the history being run (one at a time per process)
+_PROBE = {}
 
-    class Probe(MonotonicTimestampGenerator):
-        def _get(self):
-            world.point("last")
-            return self.__dict__["_c31_last"]
 
-        def _set(self, v):
-            world.point("last")
-            self.__dict__["_c31_last"] = v
+def _probe_class():
+    """MonotonicTimestampGenerator with the shared attribute `last` turned into a pre-emption point.
+    Built once per process (per imported tree)."""
+    import cassandra.timestamps as T
+    base = T.MonotonicTimestampGenerator
+    cls = _PROBE.get(base)
+    if cls is None:
+        class Probe(base):
+            def _get(self):
+                w = _CUR[0]
+                if w is not None:
+                    w.point("last")
+                return self.__dict__["_c31_last"]
 
-        last = property(_get, _set)
+            def _set(self, v):
+                w = _CUR[0]
+                if w is not None:
+                    w.point("last")
+                self.__dict__["_c31_last"] = v
 
-    return Probe
+            last = property(_get, _set)
+
+        _PROBE.clear()
+        _PROBE[base] = cls = Probe
+    return cls
 
 
 def us_floor(reading):
@@ -344,7 +365,7 @@ def run_history(case, chooser=None):
     import cassandra.timestamps as T
     cfg = case.get("cfg") or {}
     world = _World(case.get("schedule") or [], case.get("points") or ALL_POINTS)
-    Probe = _probe_class(world)
+    Probe = _probe_class()
     gen = Probe(warn_on_drift=cfg.get("warn", True), warning_threshold=cfg.get("threshold", 1),
                 warning_interval=cfg.get("interval", 1))
     gen.lock = _VLock(world)
@@ -376,11 +397,13 @@ def run_history(case, chooser=None):
 
     saved = (T.time, T.log)
     T.time, T.log = clock, vlog
+    _CUR[0] = world
     try:
         for n in case["threads"]:
             world.spawn(make_body(n), n)
         world.run(chooser)
     finally:
+        _CUR[0] = None
         T.time, T.log = saved
     return {"calls": calls, "trace": world.trace, "status": world.status, "errors": errors,
             "warnings": vlog.warnings, "reads": clock.n}
@@ -457,6 +480,7 @@ def explore(base, cap):
         runs += 1
         if h["status"] != "pruned":
             case["schedule"] = [c for c, _ in h["trace"]]
+            h["cap_hit"] = runs >= cap
             yield case, h
         if runs >= cap:
             return
@@ -547,6 +571,8 @@ def interpret_history(case, ctx):
         ctx.label("overlap")
     if h["warnings"]:
         ctx.label("warned")
+    if h.get("cap_hit"):
+        ctx.label("cap-hit")
     if len(h["trace"]) >= 1:
         ctx.label("choice-points>=1")
     ctx.nontrivial((still or back) and (nthreads == 1 or overlap))
@@ -557,36 +583,41 @@ def interpret_history(case, ctx):
 # ----------------------------------------------------------------------------
 
 _CFGS = [{"warn": True, "threshold": 1, "interval": 1}, {"warn": True, "threshold": 0, "interval": 0}]
-_QUICK_CONFIGS = [[1], [2], [1, 1], [2, 1], [1, 1, 1]]
-_THOROUGH_CONFIGS = _QUICK_CONFIGS + [[2, 2], [2, 1, 1]]
+SMALL = (0, 1)
+MID = (0, 1, JUMP)
+# (calls per thread, reading alphabet, number of leading readings fixed per chunk)
+_COMMON = [([1], ALPHABET, 0), ([2], ALPHABET, 0), ([1, 1], ALPHABET, 0), ([2, 1], ALPHABET, 1)]
+_QUICK_CONFIGS = _COMMON + [([1, 1, 1], MID, 1), ([2, 2], MID, 1)]
+_THOROUGH_CONFIGS = _COMMON + [([1, 1, 1], ALPHABET, 1), ([2, 2], ALPHABET, 1), ([2, 1, 1], ALPHABET, 2), ([1, 1, 1, 1], MID, 2), ([2, 2, 1], SMALL, 3)]
+# executions (complete + sleep-set-blocked) the exploration needs per reading sequence on a tree whose
+# lock works, measured; the budget per sequence is 4x that, so that a tree with a broken lock (whose
+# choice tree is astronomically larger) still terminates.  Reaching the budget is labelled "cap-hit".
+_CALIBRATED = {"1": 1, "2": 1, "1,1": 23, "2,1": 65, "1,1,1": 394, "2,2": 181, "2,1,1": 1751, "1,1,1,1": 11208,
+               "2,2,1": 8756, "2,2,2": 48600}
 
 
 def _sched_chunks(tier):
     out = []
     configs = _QUICK_CONFIGS if tier == "quick" else _THOROUGH_CONFIGS
-    for threads in configs:
-        n = sum(threads)
-        for ci, cfg in enumerate(_CFGS):
-            # split the big configurations by the first reading so that chunks are of similar size
-            if n >= 3:
-                for first in ALPHABET:
-                    out.append({"threads": threads, "cfg": cfg, "first": first})
-            else:
-                out.append({"threads": threads, "cfg": cfg, "first": None})
+    for threads, alphabet, fixed in configs:
+        for cfg in _CFGS:
+            for prefix in itertools.product(alphabet, repeat=fixed):
+                out.append({"threads": threads, "cfg": cfg, "alphabet": list(alphabet), "prefix": list(prefix)})
+    # biggest first, so that the pool is evenly loaded
+    out.sort(key=lambda c: -_CALIBRATED[",".join(map(str, c["threads"]))] * len(c["alphabet"]) ** (sum(c["threads"]) - len(c["prefix"])))
     return out
 
 
 def _sched_cases(chunk):
     threads, cfg = chunk["threads"], chunk["cfg"]
     n = sum(threads)
-    firsts = ALPHABET if chunk["first"] is None else (chunk["first"],)
-    for first in firsts:
-        for rest in itertools.product(ALPHABET, repeat=n - 1):
-            clock = [u / 1e6 for u in (first,) + rest]
-            base = {"threads": threads, "cfg": cfg, "clock": clock, "schedule": []}
-            for case, h in explore(base, SCHEDULE_CAP):
-                _MEMO["case"], _MEMO["hist"] = case, h
-                yield case
+    cap = 4 * _CALIBRATED[",".join(map(str, threads))] + 16
+    for rest in itertools.product(chunk["alphabet"], repeat=n - len(chunk["prefix"])):
+        clock = [u / 1e6 for u in tuple(chunk["prefix"]) + rest]
+        base = {"threads": threads, "cfg": cfg, "clock": clock, "schedule": []}
+        for case, h in explore(base, cap):
+            _MEMO["case"], _MEMO["hist"] = case, h
+            yield case
 
 
 # ----------------------------------------------------------------------------
@@ -671,5 +702,5 @@ def parts(tier):
     return [
         EnumPart("schedules", _sched_chunks(tier), _sched_cases, interpret_history),
         EnumPart("next", [{}], _next_cases, interpret_next),
-        hyp_part("random", s_random, interpret_history, tier, quick=400, thorough=6000, quick_shards=4),
+        hyp_part("random", s_random, interpret_history, tier, quick=400, thorough=3000, quick_shards=2),
     ]
